@@ -143,7 +143,7 @@ def entry_case(rng, tmpdir, i):
     ragged = i % 2 == 1
     entry = ["constructor", "from_sequence", "pack_seq", "series_dtype", "pack_lists", "from_lists", "astype", "parquet",
              "constructor_chunked", "from_sequence_df", "take_fill", "reindex_fill", "setitem", "set_list_field",
-             "reduce_pack", "astype_nested", "setitem_raw"][(i // 2) % 17]
+             "reduce_pack", "astype_nested", "setitem_raw", "parquet_partial", "from_arrow"][(i // 2) % 19]
     offered = make_ragged(rng, schema, rows, allow_null=entry not in ("from_sequence_df", "take_fill", "reindex_fill", "setitem", "setitem_raw", "set_list_field")) if ragged else rows
     if offered is None:
         offered, ragged = rows, False
@@ -161,7 +161,7 @@ def entry_case(rng, tmpdir, i):
     # a special physical form for the constructor: every field a window of list arrays built over ONE shared offsets array,
     # the windows shifted against each other (field j starts at row j): rectangular iff neighbouring rows have equal lengths
     shared = None
-    if entry == "constructor" and (i // 34) % 2 == 1 and len(rows) >= 1:
+    if entry == "constructor" and (i // 38) % 2 == 1 and len(rows) >= 1:
         nrow = len(rows)
         k = len(schema)
         base_len = rng.randint(0, 3)
@@ -220,6 +220,21 @@ def entry_case(rng, tmpdir, i):
             ca = struct_from_rows(rng, schema, offered, layout)
             s = pd.Series(ca, dtype=pd.ArrowDtype(st))
             return s.astype(NestedDtype(st)).array
+        if entry == "from_arrow":
+            # the Arrow -> pandas protocol hook of the dtype (what Table.to_pandas calls for a nested column)
+            return NestedDtype(st).__from_arrow__(struct_from_rows(rng, schema, offered, layout))
+        if entry == "parquet_partial":
+            # a partial load naming EVERY field of the nest (so the whole content is offered): validated like the full read
+            path = os.path.join(tmpdir, f"c01p_{i}.parquet")
+            ca = struct_from_rows(rng, schema, offered, "one")
+            pq.write_table(pa.table({"x": pa.array(range(len(offered))), "n": ca}), path,
+                           row_group_size=max(1, rng.randint(1, max(1, len(offered)))))
+            try:
+                nf = read_parquet(path, columns=["x"] + [f"n.{k}" for k in names])
+            finally:
+                os.remove(path)
+            assert isinstance(nf["n"].dtype, NestedDtype), "not read back as a nested column"
+            return nf["n"].array
         if entry == "parquet":
             path = os.path.join(tmpdir, f"c01_{i}.parquet")
             ca = struct_from_rows(rng, schema, offered, "one")
@@ -305,7 +320,7 @@ def astype_nested_case(rng, schema, rows, layout, i):
     st = gen.struct_type(schema)
     names = [n for n, _ in schema]
     holds = any(r is not None and any(len(v) for v in r.values()) for r in rows)
-    variant = ["widen", "reorder", "same", "widen_first"][(i // 34) % 4]
+    variant = ["widen", "reorder", "same", "widen_first"][(i // 38) % 4]
     if variant.startswith("widen") and not holds:
         variant = "same"
     extra = ("zz_extra", "double")
